@@ -272,15 +272,16 @@ B8Less(x, y) == B8LessFrom(x, y, 8)
 B8OfInt(n) == [i \in 1..8 |-> IF i = 1 THEN n % 256 ELSE IF i = 2 THEN (n \div 256) % 256 ELSE IF i = 3 THEN (n \div 65536) % 256
                               ELSE IF i = 4 THEN (n \div 16777216) % 256 ELSE 0]
 \* unbounded naturals as sequences of base-256 digits (least significant first), only what K3 / K4 need
-BigNorm(cols) ==      \* carry propagation over a sequence of column sums; the result has Len(cols) + 4 digits
-  LET n == Len(cols) + 4
-      C[i \in 0..n] == IF i = 0 THEN [d |-> <<>>, c |-> 0]
-                       ELSE LET v == (IF i <= Len(cols) THEN cols[i] ELSE 0) + C[i - 1].c IN [d |-> Append(C[i - 1].d, v % 256), c |-> v \div 256]
-  IN C[n].d
-BigMul(x, y) == BigNorm([k \in 1..(Len(x) + Len(y) - 1) |->
-                  SumSeq([i \in 1..Len(x) |-> IF k - i + 1 >= 1 /\ k - i + 1 <= Len(y) THEN x[i] * y[k - i + 1] ELSE 0])])
-BigAdd(x, y) == LET n == PcMax(Len(x), Len(y)) IN
-                BigNorm([k \in 1..n |-> (IF k <= Len(x) THEN x[k] ELSE 0) + (IF k <= Len(y) THEN y[k] ELSE 0)])
+\* carry propagation over n column sums; the result has n + 4 digits
+RECURSIVE BigCarry(_, _, _, _)
+BigCarry(cols, i, n, c) ==
+  IF i > n + 4 THEN <<>>
+  ELSE LET v == (IF i <= n THEN cols[i] ELSE 0) + c IN <<v % 256>> \o BigCarry(cols, i + 1, n, v \div 256)
+BigMul(x, y) == LET nx == Len(x)  ny == Len(y) IN
+  BigCarry([k \in 1..(nx + ny - 1) |-> SumSeq([i \in 1..nx |-> IF k - i + 1 >= 1 /\ k - i + 1 <= ny THEN x[i] * y[k - i + 1] ELSE 0])],
+           1, nx + ny - 1, 0)
+BigAdd(x, y) == LET nx == Len(x)  ny == Len(y)  n == PcMax(nx, ny) IN
+  BigCarry([k \in 1..n |-> (IF k <= nx THEN x[k] ELSE 0) + (IF k <= ny THEN y[k] ELSE 0)], 1, n, 0)
 BigFits64(x) == \A i \in 9..Len(x) : x[i] = 0
 BigSat64(x) == IF BigFits64(x) THEN SubSeq(x, 1, 8) ELSE B8Max
 
